@@ -126,6 +126,17 @@ class Ref:
         self._skips[v] = r
         return r
 
+    def cp(self, v, seen=()):
+        """the callPreparse attribute: False on MatchFirst/Or (ParseExpression.__init__), True on And, Combine, Located and
+        tokens, copied from the contained expression by every other wrapper (ParseElementEnhance.__init__) — a
+        SkipTo / Group / Opt ... over alternatives does not skip whitespace itself, which shows in SkipTo's skipped text"""
+        op, a = self.defs[v]
+        if op in ("|", "^", "MatchFirst", "Or"):
+            return False
+        if op in ("Opt", "ZeroOrMore", "OneOrMore", "Group", "Suppress", "FollowedBy", "copy", "SkipTo", "~", "NotAny"):
+            return v in seen or self.cp(a[0], seen + (v,))
+        return True
+
     def skip(self, s, i, ws=None):
         ws = self.ws if ws is None else ws
         while i < len(s) and s[i] in ws:
@@ -139,7 +150,7 @@ class Ref:
         if self.steps > 200000:
             raise Unsupported("too many steps")
         op, a = self.defs[v]
-        if not tight and not top_noskip and self.skips(v):
+        if not tight and not top_noskip and self.skips(v) and self.cp(v):
             i = self.skip(s, i, " \t\r" if op == "LineEnd" else None)
         return self.body(v, op, a, s, i, tight, top_noskip)
 
